@@ -391,6 +391,28 @@ let texts (p : program) (out : string) : string list =
          | Some y when !acc <> [] -> fail (Printf.sprintf "hoisted labels %s and %s have identical content: identical content must share one label" y x)
          | _ -> Hashtbl.replace blocks key x)
     | _ -> ()) ls;
+  (* generated names are <owner>_Text_<n> / <owner>_Movement_<n>, numbered per owner 0, 1, 2 ... in order of first appearance *)
+  let owners = Hashtbl.create 16 in
+  let split_gen x kind =
+    (* the LAST occurrence of kind followed by digits up to the end *)
+    let kl = String.length kind and xl = String.length x in
+    let rec go i = if i < 0 then None else
+      if i + kl <= xl && String.sub x i kl = kind && is_digits (String.sub x (i + kl) (xl - i - kl)) then Some (String.sub x 0 i, int_of_string (String.sub x (i + kl) (xl - i - kl))) else go (i - 1) in
+    if xl > 40 + kl then None else go (xl - kl - 1) in
+  let tops = (info_of p).top_scopes in
+  Array.iter (fun l -> match l with
+    | LLabel (x, false) when not (List.mem_assoc x tops) ->
+        List.iter (fun kind -> match split_gen x kind with
+          | Some (owner, k) ->
+              let key = owner ^ kind in
+              let seen = try Hashtbl.find owners key with Not_found -> [] in
+              Hashtbl.replace owners key (k :: seen)
+          | None -> ()) ["_Text_"; "_Movement_"]
+    | _ -> ()) ls;
+  Hashtbl.iter (fun key ks ->
+    let ks = List.rev ks in
+    if ks <> List.init (List.length ks) (fun i -> i) then
+      fail (Printf.sprintf "generated labels %s<n> are numbered %s in the output: expected 0, 1, 2 ... per owning script in order of first appearance" key (String.concat "," (List.map string_of_int ks)))) owners;
   List.rev !fails
 
 (* ---------- C10: no command line with an empty argument ---------- *)
